@@ -829,6 +829,11 @@ class PyFlow:
                 return [a[1]]
             if a is not None and a[0] == "tuple":
                 return [show(x) for x in a[1]]
+            return [show(q.env[e.id])]
+        if isinstance(e, (ast.Attribute, ast.Call, ast.Subscript)):
+            r = self.ev(e, q, self.max_depth, no_effect=True)
+            if len(r) == 1:
+                return [show(r[0][1])]
         return [src_of(e)]
 
     def _fork(self, p: Path, key: Any, truth: bool) -> List[Tuple[Path, bool]]:
